@@ -189,6 +189,10 @@ func (r Condition) SetOperator(op Operator) Condition {
 }
 
 func (r *condition) setOperator(op Operator) {
+	if op == nil {
+		return
+	}
+
 	if len(op.Context()) > 0 && len(op.String()) > 0 {
 		r.op = op
 	}
@@ -778,6 +782,9 @@ func (r Condition) Valid() (err error) {
 				return
 			}
 		}
+	} else {
+		err = errorf("operator value is nil")
+		return
 	}
 
 	// verify expression value
